@@ -218,6 +218,25 @@ def own_events(ctx):
                                'got': text_fields(Packet(bytearray(raw2)))})
                 except Exception as ex:
                     ev.append({'k': 'text', 'label': '%s / adding a subpacket raised %s' % (label, repr(ex)[:60]), 'given': want, 'got': []})
+        # user attribute packets from another producer whose image header is not the usual one (another version / length, reserved octets in
+        # use): parsed, the PICTURE replaced through the public setter, written: what comes out parses back to the header that was received
+        # and the new picture
+        for hl_, ihdr_ in (('version 1', b'\x10\x00\x01\x01' + bytes(12)), ('version 2, 20 octets', b'\x14\x00\x02\x01' + bytes(16)), ('version 3, 16 octets', b'\x10\x00\x03\x01' + bytes(12)),
+                           ('version 1, reserved octets in use', b'\x10\x00\x01\x01' + bytes(range(1, 13)))):
+            pic0, pic1 = bytes(range(40)), bytes(range(100, 180))
+            raw = build.pkt(17, build.sub_len(1 + len(ihdr_) + len(pic0)) + b'\x01' + ihdr_ + pic0)
+            want = [['version', [ihdr_[2]]], ['encoding', [ihdr_[3]]], ['image', list(pic1)]]
+            try:
+                p = Packet(bytearray(raw))
+                p.image.image = bytearray(pic1)
+                p.update_hlen()
+                raw2 = bytes(p.__bytearray__())
+                ev.append(own_event('user attribute (%s image header) parsed, picture replaced' % hl_, raw2, TAILS[2]))
+                p2 = Packet(bytearray(raw2))
+                got = [['version', [int(p2.image.version)]], ['encoding', [int(p2.image.iencoding)]], ['image', list(bytes(p2.image.image))]]
+                ev.append({'k': 'text', 'label': 'user attribute (%s image header) / re-parsed after the picture was replaced' % hl_, 'given': want, 'got': got})
+            except Exception as ex:
+                ev.append({'k': 'text', 'label': 'user attribute (%s image header) / replacing the picture raised %s' % (hl_, repr(ex)[:60]), 'given': want, 'got': []})
         saved = keylife.fast_s2k()
         try:
             for alg in ('ed25519', 'rsa2048', 'p256'):
